@@ -155,6 +155,9 @@ func genC12(w *bufio.Writer, tier string, rng *rand.Rand) {
 		if mode == 2 || mode == 3 {
 			qs = append(qs, bmax, math.Nextafter(bmax, math.Inf(-1)), bmax-spread*1e-6)
 		}
+		if kern == "gauss" && mode == 0 { // deep tails of the unbounded Gaussian estimate
+			qs = append(qs, lo-hEff*(4+rng.Float64()*6), lo-hEff*(9+rng.Float64()*25), hi+hEff*(4+rng.Float64()*6))
+		}
 		if wide {
 			if len(xs) > 3 {
 				// fewer points: drop all but three (boundaries were placed around the full range, still valid)
